@@ -327,6 +327,34 @@ def commentStep (s : St) : St :=
 def consumeComment (s : St) : St :=
   loop (fun s => !s.done && s.next ≠ some 13 && s.next ≠ some 10) commentStep s.rest.length s
 
+/-- `case '\r', '\n'` (scanner.go:144); `r` is `s.nextRune`. -/
+def scanLineTerminator (r : Nat) (s : St) : St :=
+  let s1 := consumeRune s
+  if r = 13 ∧ s1.next = some 10 then consumeRune s1 else s1
+
+/-- `case '.'` (scanner.go:154). -/
+def scanEllipsis (s : St) : Kind × St :=
+  let s1 := consumeRune s
+  if s1.next ≠ some 46 then (.invalid, s1.errorf)
+  else
+    let s2 := consumeRune s1
+    if s2.next ≠ some 46 then (.invalid, s2.errorf)
+    else (.punctuator, consumeRune s2)
+
+/-- `default:` (scanner.go:180): a number, a name, or an illegal character. -/
+def scanDefault (s : St) : Kind × St :=
+  let (isInt, s1) := consumeIntegerPart s
+  if isInt then
+    let (isFrac, s2) := consumeFractionalPart s1
+    if isFrac then (.floatValue, (consumeExponentPart s2).2)
+    else
+      let (isExp, s3) := consumeExponentPart s2
+      if isExp then (.floatValue, s3) else (.intValue, s3)
+  else
+    let (isName, s2) := consumeName s1
+    if isName then (.name, s2)
+    else (.invalid, consumeRune s2.errorf)                     -- "illegal character"
+
 /-- The `switch` of one iteration of `Scan` (scanner.go:134-196), entered with `!s.isDone()`.
     Returns `s.token`, `s.tokenStringValue` (only meaningful for STRING_VALUE) and the state. -/
 def scanToken (s : St) : Kind × List Nat × St :=
@@ -336,36 +364,15 @@ def scanToken (s : St) : Kind × List Nat × St :=
     if r = 9 ∨ r = 32 then (.whiteSpace, [], consumeRune s)
     else if isPunct1 r then (.punctuator, [], consumeRune s)
     else if r = 44 then (.comma, [], consumeRune s)
-    else if r = 13 ∨ r = 10 then
-      let s1 := consumeRune s
-      (.lineTerminator, [], if r = 13 ∧ s1.next = some 10 then consumeRune s1 else s1)
+    else if r = 13 ∨ r = 10 then (.lineTerminator, [], scanLineTerminator r s)
     else if r = 35 then (.comment, [], consumeComment s)
-    else if r = 46 then
-      let s1 := consumeRune s
-      if s1.next ≠ some 46 then (.invalid, [], s1.errorf)
-      else
-        let s2 := consumeRune s1
-        if s2.next ≠ some 46 then (.invalid, [], s2.errorf)
-        else (.punctuator, [], consumeRune s2)
-    else if r = 34 then
-      let (v, s') := consumeStringValue s
-      (.stringValue, v, s')
+    else if r = 46 then ((scanEllipsis s).1, [], (scanEllipsis s).2)
+    else if r = 34 then (.stringValue, (consumeStringValue s).1, (consumeStringValue s).2)
     else if r = 0xFFFD then (.invalid, [], consumeRune s.errorf)        -- "invalid utf-8 character"
     else if r = 0xFEFF then
       if s.off = 0 then (.unicodeBOM, [], consumeRune s)
       else (.invalid, [], consumeRune s.errorf)                        -- "illegal byte order mark"
-    else
-      let (isInt, s1) := consumeIntegerPart s
-      if isInt then
-        let (isFrac, s2) := consumeFractionalPart s1
-        if isFrac then (.floatValue, [], (consumeExponentPart s2).2)
-        else
-          let (isExp, s3) := consumeExponentPart s2
-          if isExp then (.floatValue, [], s3) else (.intValue, [], s3)
-      else
-        let (isName, s2) := consumeName s1
-        if isName then (.name, [], s2)
-        else (.invalid, [], consumeRune s2.errorf)                     -- "illegal character"
+    else ((scanDefault s).1, [], (scanDefault s).2)
 
 /-- `Scan()` (scanner.go:121): `none` is `return false`. `scanIgnored` is `mode&ScanIgnored != 0`. -/
 def scan (scanIgnored : Bool) : Nat → St → Option Tok × St
